@@ -15,8 +15,10 @@ Inductive MatchName : string -> string -> Prop :=
 
 Inductive MatchE : pexpr -> expr -> Prop :=
 | ME_hole : forall e, MatchE PE_Hole e
-| ME_read : forall px x pidx idx,
-    MatchName px x -> MatchEs pidx idx -> MatchE (PRead px pidx) (Read x idx)
+| ME_read : forall px x pidx idx,                                (* PatternMatch.match_idx *)
+    MatchName px x ->
+    (List.length pidx = List.length idx \/ Forall (fun p => p = PE_Hole) pidx) ->   (* same rank, or only holes *)
+    MatchEs pidx idx -> MatchE (PRead px pidx) (Read x idx)
 | ME_window : forall px x idx,                                  (* a window expression is matched by x[_] *)
     MatchName px x -> MatchE (PRead px [PE_Hole]) (WindowExpr x idx)
 | ME_const : forall v, MatchE (PConst v) (Const v)
@@ -28,7 +30,8 @@ Inductive MatchE : pexpr -> expr -> Prop :=
 | ME_readconfig : forall c f, MatchE (PReadConfig c f) (ReadConfig c f)
 | ME_stride_any : forall px x d, MatchName px x -> MatchE (PStride px None) (StrideExpr x d)
 | ME_stride : forall px x d, MatchName px x -> MatchE (PStride px (Some d)) (StrideExpr x d)
-(* index / argument / size lists are compared pairwise over the COMMON PREFIX (Python's zip) *)
+(* argument / size lists and the indices of statement patterns are compared pairwise over the COMMON
+   PREFIX (Python's zip); expression reads additionally pass the rank test of ME_read *)
 with MatchEs : list pexpr -> list expr -> Prop :=
 | MEs_nil_l : forall es, MatchEs [] es
 | MEs_nil_r : forall ps, MatchEs ps []
@@ -107,8 +110,6 @@ Definition MatchRel (pats : list pstmt) (blk : list stmt) (j : nat) : Prop := Ma
 
 (* patterns on which the code and the specification may differ (see Model.quirks): a call pattern
    with an argument that is not a hole *)
-Definition all_eholes (l : list pexpr) : bool :=
-  forallb (fun p => match p with PE_Hole => true | _ => false end) l.
 Fixpoint benign_s (p : pstmt) : bool :=
   match p with
   | PIf _ b o => forallb benign_s b && forallb benign_s o
